@@ -266,3 +266,95 @@ func VerifC06Two()      { scenario(2, 2, 0) }
 func VerifC06TwoHist()  { scenario(2, 1, 1+rt.Choose(3)) }
 func VerifC06TwoHist2() { scenario(2, 2, 1+rt.Choose(3)) }
 func VerifC06Three()    { scenario(2, 3, 0) }
+
+// ---- a unique index on an optional column: two unset values are equal ----
+
+const schemaOpt = `{"name":"V","version":"1.0.0","tables":{
+ "Root":{"isRoot":true,"indexes":[["tag"]],"columns":{
+   "name":{"type":"string"},
+   "tag":{"type":{"key":"string","min":0,"max":1}}
+ }}}}`
+
+type rowOpt struct {
+	UUID string  `ovsdb:"_uuid"`
+	Name string  `ovsdb:"name"`
+	Tag  *string `ovsdb:"tag"`
+}
+
+func symTag() *string {
+	if rt.Choose(2) == 0 {
+		return nil
+	}
+	s := rt.String()
+	return &s
+}
+
+func tagSet(t *string) ovsdb.OvsSet {
+	if t == nil {
+		return ovsdb.OvsSet{GoSet: []interface{}{}}
+	}
+	return ovsdb.OvsSet{GoSet: []interface{}{*t}}
+}
+
+func tagEq(a, b *string) bool { return (a == nil && b == nil) || (a != nil && b != nil && *a == *b) }
+
+// VerifC06Optional: rows r1 (stored) and r2 (stored or not); one transaction inserting r2 or r3, or rewriting the
+// tag of a stored row; it is rejected exactly when two rows end up with the same tag, unset counting as a value.
+func VerifC06Optional() {
+	cm, err := model.NewClientDBModel("V", map[string]model.Model{"Root": &rowOpt{}})
+	if err != nil {
+		panic(err)
+	}
+	db := inmemory.NewDatabase(map[string]model.ClientDBModel{"V": cm})
+	if err := db.CreateDatabase("V", fix.MustSchema(schemaOpt)); err != nil {
+		panic(err)
+	}
+	tags := map[string]*string{fix.U1: symTag()}
+	seed := []ovsdb.Operation{{Op: ovsdb.OperationInsert, Table: "Root", UUID: fix.U1, Row: ovsdb.Row{"name": "r1", "tag": tagSet(tags[fix.U1])}}}
+	if rt.Choose(2) == 1 {
+		tags[fix.U2] = symTag()
+		rt.Assume(!tagEq(tags[fix.U1], tags[fix.U2]))
+		seed = append(seed, ovsdb.Operation{Op: ovsdb.OperationInsert, Table: "Root", UUID: fix.U2, Row: ovsdb.Row{"name": "r2", "tag": tagSet(tags[fix.U2])}})
+	}
+	for _, r := range run(db, seed...) {
+		rt.Assert(r.Error == "", "C06: seeding a legal state is accepted")
+	}
+	var op ovsdb.Operation
+	t := symTag()
+	after := map[string]*string{}
+	for k, v := range tags {
+		after[k] = v
+	}
+	switch rt.Choose(2) {
+	case 0: // insert another row
+		op = ovsdb.Operation{Op: ovsdb.OperationInsert, Table: "Root", UUID: fix.U3, Row: ovsdb.Row{"name": "r3", "tag": tagSet(t)}}
+		after[fix.U3] = t
+	case 1: // rewrite the tag of r1
+		op = ovsdb.Operation{Op: ovsdb.OperationUpdate, Table: "Root", Where: byUUID(fix.U1), Row: ovsdb.Row{"tag": tagSet(t)}}
+		after[fix.U1] = t
+	}
+	dupAfter := false
+	for a, ta := range after {
+		for b, tb := range after {
+			if a < b && tagEq(ta, tb) {
+				dupAfter = true
+			}
+		}
+	}
+	res := run(db, op)
+	rt.Reach("ran")
+	rejected := false
+	for _, r := range res {
+		if r != nil && r.Error != "" {
+			rejected = true
+		}
+	}
+	rows, _ := db.List("V", "Root")
+	if dupAfter {
+		rt.Assert(rejected, "C06: two rows with the same value of an optional indexed column (both unset included) are rejected")
+		rt.Assert(len(rows) == len(tags), "C06: a rejected transaction commits nothing")
+	} else {
+		rt.Assert(!rejected, "C06: a transaction whose final state has no duplicate is accepted (optional indexed column)")
+		rt.Assert(len(rows) == len(after), "C06: the accepted transaction is committed")
+	}
+}
